@@ -384,6 +384,29 @@ def sweep_confusable(g0=None):
             out += [lane_ops(a, lane), lane_ops(b, lane), lane_ops(a, lane)]
     return out
 
+def sweep_aba():
+    """A ... B ... A on the same cells, for every text-carrying group kind, segment parity, threshold pair and progressive setting:
+    an error-free group A, then a different group B for the same segment (error-free, or corrected within the thresholds, or
+    rejected), then A again verbatim — and the same with a clear, a settings change or an unrelated group in between. A
+    'same as last time' shortcut keyed on the group, the segment or the last accepted value shows only on such re-deliveries."""
+    out = ["new"] + ALL_CBS
+    kinds = [(0, 0x0000, 0, 4), (0, 0x0800, 0, 4), (1, 0x2000, 1, 16), (1, 0x2010, 1, 16), (1, 0x2800, 0, 16), (2, 0xA000, 1, 2)]
+    n = 0
+    for text, btmpl, has_c, nseg in kinds:
+        for info, data in ((0, 0), (1, 1), (2, 2), (0, 2), (2, 0)):
+            for prog in (0, 1):
+                out += ["clear", "c %d 0 %d" % (text, info), "c %d 1 %d" % (text, data), "g %d %d" % (text, prog)]
+                for seg in (0, 1, nseg - 1):
+                    for variant in range(6):
+                        n += 1
+                        a = P(0x1234, btmpl | seg, 0x5241, 0x4449)
+                        eb = (0, min(info, 1), info, 3, 0, 1)[variant]
+                        ex = (0, min(data, 1), data, 0, 3, 1)[variant]
+                        b = P(0x1234, btmpl | seg, 0x524F, 0x434B, 0, eb, ex, ex)
+                        mid = [[], ["clear"], ["c %d 1 %d" % (text, data)], [P(0x1234, 0x3000, 0x1111, 0x2222)], [], ["x 1", "x 0"]][n % 6]
+                        out += [a, b] + mid + [a]
+    return out
+
 def sweep_rt_levels(stride=1, phase=0):
     """RT scenarios over every combination of thresholds and error levels of the stored group: store one group for flag X
     (so that every stored cell has the same weighted level), switch to Y, switch back to X with every text block
@@ -479,6 +502,14 @@ def sweep_ct(stride=1, phase=0):
                     n += 1
                     if (n + phase) % (stride * 8 if stride > 1 else 1): continue
                     out.append(g(mjd, hour, minute, off))
+    # never thinned: the days around which the calendar arithmetic changes regime (leap days, century years, the 400-year era
+    # boundary 2000-02-29/03-01, first and last MJD) x both neighbours x times just before/after midnight x every offset code
+    special = [0, 1, 2, 15019, 15020, 15078, 15079, 15080, 15385, 51543, 51544, 51603, 51604, 51605, 51909, 51910, 60275, 60369, 60370,
+               88127, 88128, 88129, 88069, 131070, 131071]
+    for mjd in special:
+        for (hour, minute) in ((0, 0), (0, 29), (11, 59), (12, 0), (23, 30), (23, 59)):
+            for off in range(64):
+                out.append(g(mjd, hour, minute, off))
     # gates: version B, errors in B/C/D
     for mjd in (0, 60275, 131071):
         out += [g(mjd, 12, 30, 2, ver=1), g(mjd, 12, 30, 2, eb=1), g(mjd, 12, 30, 2, ec=1), g(mjd, 12, 30, 2, ed=1), g(mjd, 12, 30, 2, ed=3)]
